@@ -88,6 +88,15 @@ class _Fold(norm.Normalizer):
         return mk(*a)
 N0 = _Fold("E")
 
+def overflow_corner(rep, name, key, a):
+    if key in ("add-comm", "sub-antisym:TwoFloat:TwoFloat") and any(tag(n) == "eft_err" and n[1] in ("add", "sub") for n in all_nodes((a[0], a[1]))):
+        # the E-proof swaps the operands of a branch-free 2Sum, whose error term is a function of the exact sum only while no
+        # intermediate overflows; `s - b` can overflow although `s = a + b` is finite when |a| is in the last binade
+        # (Boldo, Graillat, Muller 2017: the one spurious-overflow case of 2Sum) - recorded: K4
+        rep.fail("R15", name + " (overflow corner of 2Sum)", key + ":twosum-overflow",
+                 "%s swaps the operands of a branch-free 2Sum on the high words: with a high word of +-f64::MAX the intermediate s - b overflows for one order "
+                 "and not for the other (the result is (NaN, NaN) one way and the exact sum the other)" % name)
+
 def prove(rep, f, name, key, lhs, rhs, eft, z_only, witness):
     """lhs/rhs: TwoFloat-valued terms.  E-proof => bit-for-bit; Z-proof => modulo the sign of
     zero words (then the literal bit-for-bit reading is the genuine finding K1 when z_only)."""
@@ -97,10 +106,12 @@ def prove(rep, f, name, key, lhs, rhs, eft, z_only, witness):
         if a[0] is b[0] and a[1] is b[1]:
             if mode == "E":
                 rep.ok("R15", name, detail="identical normal forms", algebra="E", sample={"hi": a[0], "lo": a[1]})
+                overflow_corner(rep, name, key, a)
                 return
             # proved only modulo zero signs
             if z_only:
                 rep.ok("R15", name + " (modulo sign of zero words)", detail="identical normal forms in algebra Z", algebra="Z")
+                overflow_corner(rep, name, key, a)
                 rep.fail("R15", name + " (bit-for-bit)", key + ":zero-sign",
                          "%s holds only up to the sign of exactly-zero words: IEEE's x + (-x) = +0 breaks -(x+y) = (-x)+(-y); witness %s" % (name, witness))
             else:
